@@ -36,6 +36,7 @@ def run(ctx):
     ctx.run("C07.KW", "R-ORDER", c07.kw)
     ctx.run("C07.METHOD", "R-ORDER", c07.method)
     ctx.run("C07.IGNORE", "R-ORDER", c07.ignore)
+    ctx.run("C07.NO-FORMAT", "R-WHO", c07.no_format_on_success)
     ctx.run("C08.PURE", "R-WHO", c08.pure)
     ctx.run("C08.UNORDERED", "R-TABLE", c08.unordered)
     ctx.run("C08.SEED", "R-WHO", c08.seed)
